@@ -224,7 +224,8 @@ impl SOA {
 
     /// Increments the serial number by one
     pub fn increment_serial(&mut self) {
-        self.serial += 1; // TODO: what to do on overflow?
+        // serial number arithmetic wraps around, see RFC 1982 section 3.1
+        self.serial = self.serial.wrapping_add(1);
     }
 }
 
